@@ -4,7 +4,7 @@ package checks
 //
 // Bounded-exhaustive differential: a small grammar of table sets (two vertex
 // tables, a link table whose rows cover normal, missing, empty, dangling and
-// repeated links) x 8 mappings (distinct/shared labels, one prefix a prefix of
+// repeated links) x 9 mappings (distinct/shared labels, one prefix a prefix of
 // the other, both link directions, two edge types over one table) is served by
 // the real SimpleTableServicer over an in-memory gRPC connection and exposed by
 // the real gripper.NewTabularGraph; every well-typed program up to a length
@@ -125,6 +125,8 @@ func c15Cases(thorough bool) []c15Case {
 		{"same-label-both-directions", map[string][2]string{"A:": {"T1", "P"}, "B:": {"T2", "Q"}}, map[string][5]string{"e1": {"A:", "B:", "x", "f", "t"}, "e2": {"B:", "A:", "x", "t", "f"}}},
 		// one hop that reaches rows of two tables mapped to the same label (second edge type: self links of T1 rows)
 		{"shared-label-mixed-targets", map[string][2]string{"A:": {"T1", "P"}, "B:": {"T2", "P"}}, map[string][5]string{"e1": {"A:", "B:", "x", "f", "t"}, "e2": {"A:", "A:", "y", "f", "f"}}},
+		// two link tables with the SAME edge label leaving the same vertex table for different vertex tables
+		{"one-label-two-link-tables", map[string][2]string{"A:": {"T1", "P"}, "B:": {"T2", "Q"}}, map[string][5]string{"e1": {"A:", "B:", "x", "f", "t"}, "e2": {"A:", "A:", "x", "f", "f"}}},
 		{"shared-label-mixed-targets-prefix-lengths", map[string][2]string{"A:": {"T1", "P"}, "BB:": {"T2", "P"}}, map[string][5]string{"e1": {"A:", "BB:", "x", "f", "t"}, "e2": {"A:", "A:", "y", "f", "f"}}},
 	}
 	var out []c15Case
@@ -176,7 +178,7 @@ func c15Programs(thorough bool) [][]refsem.Step {
 	// "@a" / "@b" / "@e" stand for the id of the first row of the first / second vertex table and of one edge
 	// under the mapping of the case at hand (c15Resolve): id starts must hit real ids under every mapping,
 	// also when one prefix is a prefix of the other
-	starts := []refsem.Step{st("V"), st("V", "@a"), st("V", "@b"), st("V", "@a", "zz", "@b"), st("E"), st("E", "@e")}
+	starts := []refsem.Step{st("V"), st("V", "@a"), st("V", "@b"), st("V", "@a", "zz", "@b"), st("E"), st("E", "@e"), st("E", "@e2"), st("E", "@e", "@e2")}
 	alpha := []refsem.Step{
 		st("hasLabel", "P"), st("hasLabel", "Q"), st("hasLabel", "P", "Q"), st("hasLabel", "ZZ"), st("hasLabel", "x"), st("hasLabel", "x", "y"),
 		st("out"), st("in"), st("both"), st("outE"), st("inE"), st("bothE"), st("out", "x"), st("in", "y"), st("outE", "x"),
@@ -257,6 +259,19 @@ func caseFeatures(c c15Case) string {
 			f = append(f, k)
 		}
 	}
+	// "repeat" is the feature "two link rows generate the same edge id" (ids are built from the endpoints
+	// only): it also arises without the literal repeat row, e.g. when an edge type reads both endpoints from
+	// one column and two rows share its value
+	ids := map[string]int{}
+	for _, e := range c.Graph.E {
+		ids[e.ID]++
+	}
+	for _, k := range ids {
+		if k > 1 && !strings.Contains(strings.Join(f, "+"), "repeat") {
+			f = append(f, "repeat")
+			break
+		}
+	}
 	m := n[strings.LastIndex(n, "/")+1:]
 	if len(f) == 0 {
 		return m + "|plain-links"
@@ -266,7 +281,7 @@ func caseFeatures(c c15Case) string {
 
 // c15Resolve replaces the id placeholders of a program by the ids they denote in case c.
 func c15Resolve(p []refsem.Step, c c15Case) []refsem.Step {
-	ids := map[string]string{"@e": "zz-x-zz"}
+	ids := map[string]string{"@e": "zz-x-zz", "@e2": "zz-x-zz"}
 	for prefix, vc := range c.Mapping.Vertices {
 		switch vc.Data.Collection {
 		case "T1":
@@ -282,6 +297,7 @@ func c15Resolve(p []refsem.Step, c c15Case) []refsem.Step {
 	sort.Strings(eids)
 	if len(eids) > 0 {
 		ids["@e"] = eids[0]
+		ids["@e2"] = eids[len(eids)-1] // with several link tables the first and the last id come from different tables
 	}
 	out := make([]refsem.Step, len(p))
 	for i, s := range p {
@@ -436,7 +452,7 @@ func C15(tier string, args []string) int {
 	run.Coverage["non_minimal_disagreements"] = res.Stats["non_minimal_disagreements"]
 	run.Coverage["worker_crashes"] = res.Crashes
 	run.Coverage["exhaustive"] = !res.DeadlineHit && res.Done >= w.N()
-	run.Coverage["rule"] = "10 link-table contents (36 more pairs when thorough) x 8 mappings, each served by the real SimpleTableServicer over bufconn and exposed by gripper.NewTabularGraph; every well-typed program up to the length bound over 5 starts and 25 step instances; reference = refsem on the graph materialised per the property's definition (edges keyed per link row, so repeated links stay two edges)"
+	run.Coverage["rule"] = "10 link-table contents (36 more pairs when thorough) x 9 mappings, each served by the real SimpleTableServicer over bufconn and exposed by gripper.NewTabularGraph; every well-typed program up to the length bound over 5 starts and 25 step instances; reference = refsem on the graph materialised per the property's definition (edges keyed per link row, so repeated links stay two edges)"
 	s := res.Samples
 	if len(s) == 0 {
 		s = []string{w.cases[1].Name + ": V().hasLabel(P).out()"}
